@@ -26,9 +26,10 @@ const (
 	ModeRandom        // 1..len(p) per call (tape per call)
 	ModeSplit         // all, but split at the given interesting offsets
 	nModes
+	ModeFixed // Chunk bytes per call (explicit profile, draws nothing)
 )
 
-var modeNames = []string{"all", "one", "small", "random", "split"}
+var modeNames = []string{"all", "one", "small", "random", "split", "n/a", "fixed"}
 
 // Reader is the simulated stream source.
 type Reader struct {
@@ -42,6 +43,7 @@ type Reader struct {
 	ZeroReads   bool // occasionally return (0, nil)
 	lastZero    bool
 	Splits      map[int]bool
+	Chunk       int
 
 	truncAt   int // -1: none; EOF after this many bytes
 	failAt    int // -1: none; ErrIO once pos reaches this offset (sticky)
@@ -70,6 +72,13 @@ func NewReader(r *rt.Run, name string, data []byte) *Reader {
 // NewPlainReader has the plain profile (everything at once, separate EOF) and draws nothing.
 func NewPlainReader(r *rt.Run, name string, data []byte) *Reader {
 	return &Reader{run: r, name: name, data: data, truncAt: -1, failAt: -1}
+}
+
+// NewFixedReader has an explicit, replicable profile: chunk bytes per call
+// (0 = as much as fits) and the EOF style.  It draws nothing from the tape.
+func NewFixedReader(r *rt.Run, name string, data []byte, chunk int, eofTogether bool) *Reader {
+	rd := &Reader{run: r, name: name, data: data, truncAt: -1, failAt: -1, Mode: ModeFixed, Chunk: chunk, EOFTogether: eofTogether}
+	return rd
 }
 
 // SetSplits sets the offsets at which ModeSplit cuts a delivery.
@@ -153,6 +162,10 @@ func (rd *Reader) Read(p []byte) (int, error) {
 		}
 	case ModeRandom:
 		n = 1 + r.T.Draw(n, "rd.n")
+	case ModeFixed:
+		if rd.Chunk > 0 && rd.Chunk < n {
+			n = rd.Chunk
+		}
 	case ModeSplit:
 		for i := 1; i < n; i++ {
 			if rd.Splits[rd.pos+i] {
@@ -174,6 +187,9 @@ func (rd *Reader) Read(p []byte) (int, error) {
 	r.Event("read", "data", fmt.Sprintf("%s n=%d", rd.name, n))
 	return n, nil
 }
+
+// Failed reports whether the planned EIO was actually returned to the caller.
+func (rd *Reader) Failed() bool { return rd.failed }
 
 // Pos returns how many bytes were delivered.
 func (rd *Reader) Pos() int { return rd.pos }
